@@ -23,6 +23,8 @@ func checkC15(r *core.Run) {
 	r.Rule("T-provenance: the slices RandomSP returns are built only from GetNextSuperNodes / GetAllNodesByStatusAndReputationAndRole results; T-ignore: ignore argument completeness at the 4 call sites")
 	r.Rule("T-permute: the in-place reordering of the candidate slice under SelectNodes (heap sift) only ever swaps two positions, so it is a permutation and distinct drawn indices name distinct providers")
 	rulePermute(r, "T-permute", "node/keeper.SelectNodes")
+	r.Rule("T-splice-skip: no loop in module node removes the element at its upward-counting index from a list and carries on with the next index (the neighbour of a removed candidate would escape the ignore filter and could be chosen again)")
+	ruleSpliceSkip(r, "T-splice-skip", "node/keeper.")
 	r.Rule("T-decode-fresh: in module node every record decoded inside a loop is decoded into a variable that is fresh per iteration (the generated Unmarshal does not reset its target: a hoisted variable hands an offline node the status bits of the node decoded before it)")
 	ruleDecodeFresh(r, "T-decode-fresh", "node/keeper.")
 	r.Assume(aDeps)
